@@ -487,6 +487,104 @@ def make_decimal():
 
 # --------------------------------------------------------------- e2names
 
+E2LEAVES = {
+    # mutator: (module, methods, language of the token, language the new
+    # leaf must be in)
+    'SimplifyQuotedSymbols': ('mutators_smtlib',
+                              ('mutations', 'global_mutations'), 'symbol',
+                              'leaf'),
+}
+
+
+def run_e2leaves(cls):
+    """E2: leaves a mutator builds from the text of a token (translated
+    from the current source, incl. the regular expression of its filter) are
+    single tokens, for token texts of any length."""
+    import importlib
+    import time
+    import z3
+    from vlib import py2smt_str as T
+    from ddsmt import smtlib
+    t0 = time.time()
+    modname, methods, lang, target = E2LEAVES[cls]
+    mod = importlib.import_module('ddsmt.' + modname)
+    M = getattr(mod, cls)
+    L = T.languages()
+    name = z3.String('name')
+    env = {'node': T.Leaf(name), 'input_': T.Opaque('input'),
+           'self': T.Opaque('self')}
+    base = {'status': 'UNKNOWN', 'cex': None, 'paths': 0, 'paths_ok': 0,
+            'samples': [], 'solver_checks': 0, 'solver_seconds': 0.0}
+    recs = []
+    try:
+        for meth in methods:
+            recs += T.leaf_replacements(getattr(M, meth), smtlib, env,
+                                        M.filter)
+    except T.Unsupported as e:
+        return dict(base, engine_error=f'outside the translatable subset: {e}',
+                    wall_s=round(time.time() - t0, 2))
+    if not recs:
+        return dict(base, status='VACUOUS',
+                    engine_error='no replacement leaf found in the source',
+                    wall_s=round(time.time() - t0, 2))
+    nq = reach = 0
+    stime = 0.0
+    bad = None
+    unknown = []
+    samples = []
+    for pc, term in recs:
+        for label, member in T.cases(name, lang):
+            for what, goal in (('reach', z3.BoolVal(True)),
+                               ('token', z3.Not(z3.InRe(term, L[target])))):
+                sol = z3.Solver()
+                sol.set('timeout', 60000)
+                sol.add(member, pc, goal)
+                tq = time.time()
+                r = str(sol.check())
+                stime += time.time() - tq
+                nq += 1
+                if what == 'reach':
+                    if r == 'sat':
+                        reach += 1
+                        m = sol.model()
+                        if len(samples) < 3:
+                            samples.append({
+                                'token': T.model_string(m, name),
+                                'new_leaf': T.model_string(m, term)})
+                    elif r != 'unsat':
+                        unknown.append(f'reachability: {r}')
+                elif r == 'sat' and bad is None:
+                    m = sol.model()
+                    tok = T.model_string(m, name)
+                    bad = ({'token': tok, 'mutator': cls},
+                           f'{cls}: the token {tok!r} is replaced by the leaf '
+                           f'{T.model_string(m, term)!r}, which is not '
+                           f'a single token')
+                elif r not in ('sat', 'unsat'):
+                    unknown.append(f'token query: {r}')
+    status = 'VIOLATED' if bad else ('UNKNOWN' if unknown else
+                                     ('CONFIRMED' if reach else 'VACUOUS'))
+    return {'status': status, 'cex': bad[0] if bad else None,
+            'exc': {'type': 'Violation', 'msg': bad[1]} if bad else None,
+            'paths': len(recs), 'paths_ok': len(recs) - len(unknown),
+            'samples': samples, 'solver_checks': nq,
+            'solver_seconds': round(stime, 2),
+            'queries': {'leaf_constructions_in_source': len(recs),
+                        'reachable': reach, 'undecided': unknown[:3]},
+            'engine_error': '; '.join(unknown[:2]) or None,
+            'wall_s': round(time.time() - t0, 2),
+            'note': 'token texts of any length (characters of the BMP); the '
+                    'filter, incl. its regular expression, is part of the '
+                    'translation'}
+
+
+def e2leaves_native(cls, name):
+    from ddsmt import nodeio
+    exprs = list(nodeio.parse_smtlib(
+        f'(declare-const {name} Int)(assert (> {name} 0))'))
+    return run_mutators(exprs, all_mutators([cls]))
+
+
 E2NAMES = {
     # mutator: (module, class, language of the token the name is built from)
     'BVReduceBW': ('mutators_bv', 'symbol'),
@@ -576,17 +674,17 @@ def run_e2names(cls):
                     m = sol.model()
                     if len(samples) < 3:
                         samples.append({
-                            'token': m.eval(name, True).as_string(),
-                            'declared_name': m.eval(term, True).as_string()})
+                            'token': T.model_string(m, name),
+                            'declared_name': T.model_string(m, term)})
                 elif r != 'unsat':
                     unknown.append(f'reachability: {r}')
                 continue
             if r == 'sat' and bad is None:
                 m = sol.model()
-                tok = m.eval(name, True).as_string()
+                tok = T.model_string(m, name)
                 bad = ({'token': tok, 'mutator': cls},
                        f'{cls}: for the token {tok!r} the declared name is '
-                       f'{m.eval(term, True).as_string()!r}, which is not a '
+                       f'{T.model_string(m, term)!r}, which is not a '
                        f'symbol')
             elif r not in ('sat', 'unsat'):
                 unknown.append(f'symbol query: {r}')
@@ -636,6 +734,10 @@ def partitions(tier):
     for k in range(len(CORPUS)):
         parts.append({'name': f'corpus_{k}', 'kind': 'native',
                       'run': (lambda k=k: run_corpus(k)), 'budget_s': 300})
+    for cls in E2LEAVES:
+        parts.append({'name': f'e2leaves_{cls}', 'kind': 'E2',
+                      'run': (lambda cls=cls: run_e2leaves(cls)),
+                      'budget_s': 400})
     for cls in E2NAMES:
         parts.append({'name': f'e2names_{cls}', 'kind': 'E2',
                       'run': (lambda cls=cls: run_e2names(cls)),
@@ -669,6 +771,8 @@ def replay(part, cex):
         if part.startswith('corpus'):
             r = run_corpus(int(part.split('_')[1]))
             return r['exc']['msg'] if r['exc'] else None
+        if part.startswith('e2leaves'):
+            return e2leaves_native(cex['mutator'], cex['token'])
         if part.startswith('e2names'):
             return e2names_native(cex['mutator'], cex['token'])
         if part.startswith('typed'):
